@@ -110,7 +110,9 @@ impl RecoverRunner {
             if infos.is_empty() {
                 clean_blocks.push(block);
             } else {
-                evictable_blocks.push(block);
+                // Remember how recent the block's content is: sequences never decrease within a block.
+                let newest = infos.last().map(|info| info.addr.sequence).unwrap_or_default();
+                evictable_blocks.push((newest, block));
             }
 
             for EntryInfo { hash, addr } in infos {
@@ -145,7 +147,12 @@ impl RecoverRunner {
         // Update components.
         indexer.insert_batch(indices);
         sequence.store(latest_sequence + 1, Ordering::Release);
-        block_manager.init(&clean_blocks);
+        // Hand the recovered blocks to the eviction pickers oldest first, so that after a restart blocks are still
+        // reclaimed in the order they were filled. Reclaiming a newer block before an older one would let an older
+        // version of a key that still sits in the older block win the next recovery.
+        evictable_blocks.sort();
+        let evictable_blocks = evictable_blocks.into_iter().map(|(_, block)| block).collect_vec();
+        block_manager.init(&clean_blocks, &evictable_blocks);
 
         let elapsed = now.elapsed();
         tracing::info!("[recover] finish in {:?}", elapsed);
